@@ -6,7 +6,7 @@
 From Coq Require Import List NArith ZArith Bool Arith.
 Import ListNotations.
 From V Require Import Base.Prelude Base.TplRes Gen.Tokens Model.C31 Model.Tpl Model.TplCl Model.TplProd
-  Proofs.Tpl Proofs.TplTerm Proofs.TplSafe.
+  Proofs.Tpl Proofs.TplTerm Proofs.TplSafe Gen.TplFirst Proofs.TplFirst.
 Local Open Scope nat_scope.
 
 (* termination with an explicit fuel bound, for every productive grammar, every input, every
@@ -33,6 +33,25 @@ Theorem C28_compiled_productive_match_returns : forall unq rs env doc rk nl toks
   exists r, match_doc env toks (fuel_bound rk env toks) doc = Ok r.
 Proof. exact compiled_productive_match_returns. Qed.
 
+(* K-gen: the first/mayEmpty combination rule of every Matcher.First method, regenerated from
+   tpl/matcher/match.go on every run, is the one the model's [first] (hence its RecursiveError
+   verdict = the compile-time rejection of left recursion) implements *)
+Theorem C28_first_rules_match_source : tplfirst_rules = model_first_rules.
+Proof. exact first_rules_match_source. Qed.
+(* rule ANY of Choices.First: a nullable option at ANY index (first, middle, last) makes the choice
+   nullable, so a rule reference after it is in a first position *)
+Theorem C28_choice_nullable_at_any_index : forall env f vis pre o post acc a me' accp mep ao,
+  first_opts env f vis pre acc false = FOk accp mep ->
+  first env f vis o accp = FOk ao true ->
+  first env (S f) vis (MChoice (pre ++ o :: post) []) acc = FOk a me' -> me' = true.
+Proof. intros env f vis pre o post acc a me' accp mep ao H1 H2 H3. rewrite first_choice_unfold in H3.
+  exact (rule_any_nullable_option env f vis pre o post acc a me' accp mep ao H1 H2 H3). Qed.
+(* rule PREFIX of gSequence.First *)
+Theorem C28_sequence_first_prefix : forall env f vis i j t acc a,
+  (first env f vis i acc = FOk a false -> first env (S f) vis (MSeq (i :: j :: t)) acc = FOk a false) /\
+  (first env f vis i acc = FOk a true -> first env (S f) vis (MSeq (i :: j :: t)) acc = first_items env f vis (j :: t) a).
+Proof. intros. rewrite first_seq_unfold. split; intros H; [apply rule_prefix_stop|apply rule_prefix_continue]; auto. Qed.
+
 (* The property as stated needs "compiles -> productive".  The faithful model refutes it, exactly
    as the implementation does (known findings): both grammars compile, have no certificate, and
    the match runs out of ANY fuel. *)
@@ -54,6 +73,16 @@ Theorem C28_compile_accepts_left_rec_refuted :
   (forall rk nl, productive rk nl env_left_rec = false).
 Proof. split; [vm_compute; reflexivity|]. split; [exact left_rec_diverges|exact left_rec_not_productive]. Qed.
 
+(* left recursion hidden behind a choice whose NON-last alternative is nullable is rejected at compile time:
+     item = INT | (?"-" | "+") item "!"        (RecursiveError -> Ok None) *)
+Definition unq_op (k : bool) (l : str) : uq := match l with [_; c; _] => UqStr [c] | _ => UqErr end.
+Definition item : str := [105;116;101;109]%N.
+Example C28_example_hidden_left_rec_rejected :
+  compile unq_op [(item, EChoice [EIdent [73;78;84]%N;
+                                  ESeq [EChoice [EUn UQuest (ELit false [34;45;34]%N); ELit false [34;43;34]%N];
+                                        EIdent item; ELit false [34;33;34]%N]])] = Ok None.
+Proof. vm_compute. reflexivity. Qed.
+
 (* non-vacuity: the README calculator grammar with a recursive operand is productive
      expr = operand % ("*"|"/") % ("+"|"-")        operand = INT | "-" operand | "(" expr ")"
    certificate: rank expr = 1 > rank operand = 0, neither may be empty *)
@@ -70,6 +99,9 @@ Proof. eexists. vm_compute. reflexivity. Qed.
 
 Print Assumptions C28_match_terminates.
 Print Assumptions C28_result_stable.
+Print Assumptions C28_first_rules_match_source.
+Print Assumptions C28_choice_nullable_at_any_index.
+Print Assumptions C28_sequence_first_prefix.
 Print Assumptions C28_compiled_match_no_panic.
 Print Assumptions C28_compiled_productive_match_returns.
 Print Assumptions C28_compile_accepts_nullable_rep_refuted.
